@@ -49,6 +49,7 @@ func main() {
 	first = append(first, raceScenarios(f)...)
 	first = append(first, adapterScenarios(boundMs(f))...)
 	first = append(first, singleScenarios(boundMs(f), f.Thorough())...)
+	first = append(first, listenScenarios(boundMs(f), f.Thorough())...)
 	first = append(first, pipeScenarios(f)...)
 	outs := runAll(f, first, f.N(4, 8))
 	points := map[string]int{}
